@@ -76,16 +76,16 @@ theorem dir_stable {π : Par} {lvl : Level} {who : Nat → Prop} {fs : FS} {o : 
       rcases getMove_dir hj hp' hq with h1 | h1
       · exact ⟨j, by rw [hg]; exact h1⟩
       · exact absurd h1 h0
-  | unlinkE a p' _ _ =>
-    rcases unlink_spec p' fs with ⟨e, _⟩ | ⟨i0, c0, hp', _, _, _, hg⟩
+  | unlinkE a p' g _ _ =>
+    rcases unlink_spec p' _ fs with ⟨e, _⟩ | ⟨i0, c0, hp', _, _, _, _, hg⟩
     · rw [e]; exact ⟨j, hj⟩
     · exact upd _ p' _ (by rintro rfl; rw [hj] at hp'; cases hp') hg
-  | unlinkC p' _ _ =>
-    rcases unlink_spec p' fs with ⟨e, _⟩ | ⟨i0, c0, hp', _, _, _, hg⟩
+  | unlinkC p' g _ _ =>
+    rcases unlink_spec p' _ fs with ⟨e, _⟩ | ⟨i0, c0, hp', _, _, _, _, hg⟩
     · rw [e]; exact ⟨j, hj⟩
     · exact upd _ p' _ (by rintro rfl; rw [hj] at hp'; cases hp') hg
-  | rmdirE a p' hl hb =>
-    rcases rmdir_spec p' fs with ⟨e, _⟩ | ⟨_, _, _, _, _, _, _, hg⟩
+  | rmdirE a p' g hl hb =>
+    rcases rmdir_spec p' _ fs with ⟨e, _⟩ | ⟨_, _, _, _, _, _, _, hg⟩
     · rw [e]; exact ⟨j, hj⟩
     · refine upd _ p' _ ?_ hg
       rintro rfl
@@ -93,8 +93,8 @@ theorem dir_stable {π : Par} {lvl : Level} {who : Nat → Prop} {fs : FS} {o : 
       | calls => exact hl rfl
       | evict => exact hpr a hb
       | clear => exact hpr.2 a hb
-  | rmdirC p' hl hb =>
-    rcases rmdir_spec p' fs with ⟨e, _⟩ | ⟨_, _, _, _, _, _, _, hg⟩
+  | rmdirC p' g hl hb =>
+    rcases rmdir_spec p' _ fs with ⟨e, _⟩ | ⟨_, _, _, _, _, _, _, hg⟩
     · rw [e]; exact ⟨j, hj⟩
     · refine upd _ p' _ ?_ hg
       rintro rfl
@@ -139,9 +139,10 @@ theorem next_mono (fs : FS) (o : Op) :
     fs.next ≤ (apply o fs).2.next := by
   cases o with
   | stat p => rw [observer_noop _ _ (Or.inl ⟨p, rfl⟩)]; exact Nat.le_refl _
+  | lstat p g => rw [lstat_noop]; exact Nat.le_refl _
   | openr p => rw [observer_noop _ _ (Or.inr (Or.inl ⟨p, rfl⟩))]; exact Nat.le_refl _
   | read p i => rw [observer_noop _ _ (Or.inr (Or.inr (Or.inl ⟨p, i, rfl⟩)))]; exact Nat.le_refl _
-  | opendir p => rw [observer_noop _ _ (Or.inr (Or.inr (Or.inr (Or.inl ⟨p, rfl⟩))))]; exact Nat.le_refl _
+  | opendir p g => rw [observer_noop _ _ (Or.inr (Or.inr (Or.inr (Or.inl ⟨p, g, rfl⟩))))]; exact Nat.le_refl _
   | readdir p i => rw [observer_noop _ _ (Or.inr (Or.inr (Or.inr (Or.inr ⟨p, i, rfl⟩))))]; exact Nat.le_refl _
   | mkdir p =>
     rcases mkdir_spec p fs with ⟨e, _⟩ | ⟨_, _, _, hn, _, _⟩
@@ -157,12 +158,12 @@ theorem next_mono (fs : FS) (o : Op) :
     rcases rename_spec p q fs with e | ⟨_, _, _, _, _, _, hn, _, _⟩
     · rw [e]; exact Nat.le_refl _
     · rw [hn]; exact Nat.le_refl _
-  | unlink p =>
-    rcases unlink_spec p fs with ⟨e, _⟩ | ⟨_, _, _, _, hn, _, _⟩
+  | unlink p g =>
+    rcases unlink_spec p _ fs with ⟨e, _⟩ | ⟨_, _, _, _, _, hn, _, _⟩
     · rw [e]; exact Nat.le_refl _
     · rw [hn]; exact Nat.le_refl _
-  | rmdir p =>
-    rcases rmdir_spec p fs with ⟨e, _⟩ | ⟨_, _, _, _, _, hn, _, _⟩
+  | rmdir p g =>
+    rcases rmdir_spec p _ fs with ⟨e, _⟩ | ⟨_, _, _, _, _, hn, _, _⟩
     · rw [e]; exact Nat.le_refl _
     · rw [hn]; exact Nat.le_refl _
 
@@ -171,9 +172,10 @@ theorem loc_after (fs : FS) (o : Op) (i : Nat) (q : Path) (h : Loc (apply o fs).
     Loc fs i q ∨ (i = fs.next ∧ ∃ p, o = .creat p) ∨ (∃ p, o = .rename p q ∧ Loc fs i p ∧ q ≠ p) := by
   cases o with
   | stat p => rw [observer_noop _ _ (Or.inl ⟨p, rfl⟩)] at h; exact Or.inl h
+  | lstat p g => rw [lstat_noop] at h; exact Or.inl h
   | openr p => rw [observer_noop _ _ (Or.inr (Or.inl ⟨p, rfl⟩))] at h; exact Or.inl h
   | read p j => rw [observer_noop _ _ (Or.inr (Or.inr (Or.inl ⟨p, j, rfl⟩)))] at h; exact Or.inl h
-  | opendir p => rw [observer_noop _ _ (Or.inr (Or.inr (Or.inr (Or.inl ⟨p, rfl⟩))))] at h; exact Or.inl h
+  | opendir p g => rw [observer_noop _ _ (Or.inr (Or.inr (Or.inr (Or.inl ⟨p, g, rfl⟩))))] at h; exact Or.inl h
   | readdir p j => rw [observer_noop _ _ (Or.inr (Or.inr (Or.inr (Or.inr ⟨p, j, rfl⟩))))] at h; exact Or.inl h
   | mkdir p =>
     rcases mkdir_spec p fs with ⟨e, _⟩ | ⟨_, _, _, _, ho, hg⟩
@@ -208,8 +210,8 @@ theorem loc_after (fs : FS) (o : Op) (i : Nat) (q : Path) (h : Loc (apply o fs).
     · rw [ho] at h
       obtain ⟨c0, h0⟩ := mem_writeOrphans h
       exact Or.inl (Or.inr ⟨c0, h0⟩)
-  | unlink p =>
-    rcases unlink_spec p fs with ⟨e, _⟩ | ⟨i0, c0, hp, _, _, ho, hg⟩
+  | unlink p g =>
+    rcases unlink_spec p _ fs with ⟨e, _⟩ | ⟨i0, c0, hp, _, _, _, ho, hg⟩
     · rw [e] at h; exact Or.inl h
     · rcases h with ⟨c, h⟩ | ⟨c, h⟩
       · rw [hg] at h
@@ -220,8 +222,8 @@ theorem loc_after (fs : FS) (o : Op) (i : Nat) (q : Path) (h : Loc (apply o fs).
         rcases List.mem_cons.mp h with e | h
         · cases e; exact Or.inl (Or.inl ⟨c0, hp⟩)
         · exact Or.inl (Or.inr ⟨c, h⟩)
-  | rmdir p =>
-    rcases rmdir_spec p fs with ⟨e, _⟩ | ⟨_, _, _, _, _, _, ho, hg⟩
+  | rmdir p g =>
+    rcases rmdir_spec p _ fs with ⟨e, _⟩ | ⟨_, _, _, _, _, _, ho, hg⟩
     · rw [e] at h; exact Or.inl h
     · rcases h with ⟨c, h⟩ | ⟨c, h⟩
       · rw [hg] at h
@@ -334,26 +336,26 @@ theorem tmpData_stable {π : Par} {lvl : Level} {me : Nat} {p : Path} {i : Nat} 
     · rw [e]; exact h
     · refine keep _ ?_
       rw [hg]; unfold getMove; rw [if_neg h0, if_neg h2, if_neg h1]
-  | unlinkE a p' _ _ =>
-    rcases unlink_spec p' fs with ⟨e, _⟩ | ⟨_, _, _, _, _, _, hg⟩
+  | unlinkE a p' g _ _ =>
+    rcases unlink_spec p' _ fs with ⟨e, _⟩ | ⟨_, _, _, _, _, _, _, hg⟩
     · rw [e]; exact h
     · by_cases hpp : p = p'
       · left; rw [hg, hpp]; unfold getUpd; rw [if_neg (hpp ▸ h0)]; simp
       · exact keep _ (by rw [hg]; exact getUpd_ne h0 hpp)
-  | unlinkC p' _ _ =>
-    rcases unlink_spec p' fs with ⟨e, _⟩ | ⟨_, _, _, _, _, _, hg⟩
+  | unlinkC p' g _ _ =>
+    rcases unlink_spec p' _ fs with ⟨e, _⟩ | ⟨_, _, _, _, _, _, _, hg⟩
     · rw [e]; exact h
     · by_cases hpp : p = p'
       · left; rw [hg, hpp]; unfold getUpd; rw [if_neg (hpp ▸ h0)]; simp
       · exact keep _ (by rw [hg]; exact getUpd_ne h0 hpp)
-  | rmdirE a p' _ _ =>
-    rcases rmdir_spec p' fs with ⟨e, _⟩ | ⟨_, _, _, _, _, _, _, hg⟩
+  | rmdirE a p' g _ _ =>
+    rcases rmdir_spec p' _ fs with ⟨e, _⟩ | ⟨_, _, _, _, _, _, _, hg⟩
     · rw [e]; exact h
     · by_cases hpp : p = p'
       · left; rw [hg, hpp]; unfold getUpd; rw [if_neg (hpp ▸ h0)]; simp
       · exact keep _ (by rw [hg]; exact getUpd_ne h0 hpp)
-  | rmdirC p' _ _ =>
-    rcases rmdir_spec p' fs with ⟨e, _⟩ | ⟨_, _, _, _, _, _, _, hg⟩
+  | rmdirC p' g _ _ =>
+    rcases rmdir_spec p' _ fs with ⟨e, _⟩ | ⟨_, _, _, _, _, _, _, hg⟩
     · rw [e]; exact h
     · by_cases hpp : p = p'
       · left; rw [hg, hpp]; unfold getUpd; rw [if_neg (hpp ▸ h0)]; simp
@@ -479,9 +481,10 @@ theorem linked_after (fs : FS) (o : Op) (i : Nat) (q : Path) (c : Bytes)
     (h : (apply o fs).2.get q = some (.file i c)) : (∃ q' c', fs.get q' = some (.file i c')) ∨ i = fs.next := by
   cases o with
   | stat p => rw [observer_noop _ _ (Or.inl ⟨p, rfl⟩)] at h; exact Or.inl ⟨q, c, h⟩
+  | lstat p g => rw [lstat_noop] at h; exact Or.inl ⟨q, c, h⟩
   | openr p => rw [observer_noop _ _ (Or.inr (Or.inl ⟨p, rfl⟩))] at h; exact Or.inl ⟨q, c, h⟩
   | read p j => rw [observer_noop _ _ (Or.inr (Or.inr (Or.inl ⟨p, j, rfl⟩)))] at h; exact Or.inl ⟨q, c, h⟩
-  | opendir p => rw [observer_noop _ _ (Or.inr (Or.inr (Or.inr (Or.inl ⟨p, rfl⟩))))] at h; exact Or.inl ⟨q, c, h⟩
+  | opendir p g => rw [observer_noop _ _ (Or.inr (Or.inr (Or.inr (Or.inl ⟨p, g, rfl⟩))))] at h; exact Or.inl ⟨q, c, h⟩
   | readdir p j => rw [observer_noop _ _ (Or.inr (Or.inr (Or.inr (Or.inr ⟨p, j, rfl⟩))))] at h; exact Or.inl ⟨q, c, h⟩
   | mkdir p =>
     rcases mkdir_spec p fs with ⟨e, _⟩ | ⟨_, _, _, _, _, hg⟩
@@ -505,15 +508,15 @@ theorem linked_after (fs : FS) (o : Op) (i : Nat) (q : Path) (c : Bytes)
     rw [(write_spec p j d fs).2.2.2] at h
     obtain ⟨c0, h0, _⟩ := wr_file h
     exact Or.inl ⟨q, c0, h0⟩
-  | unlink p =>
-    rcases unlink_spec p fs with ⟨e, _⟩ | ⟨_, _, _, _, _, _, hg⟩
+  | unlink p g =>
+    rcases unlink_spec p _ fs with ⟨e, _⟩ | ⟨_, _, _, _, _, _, _, hg⟩
     · rw [e] at h; exact Or.inl ⟨q, c, h⟩
     · rw [hg] at h
       rcases getUpd_file h with ⟨_, e⟩ | ⟨_, h⟩
       · cases e
       · exact Or.inl ⟨q, c, h⟩
-  | rmdir p =>
-    rcases rmdir_spec p fs with ⟨e, _⟩ | ⟨_, _, _, _, _, _, _, hg⟩
+  | rmdir p g =>
+    rcases rmdir_spec p _ fs with ⟨e, _⟩ | ⟨_, _, _, _, _, _, _, hg⟩
     · rw [e] at h; exact Or.inl ⟨q, c, h⟩
     · rw [hg] at h
       rcases getUpd_file h with ⟨_, e⟩ | ⟨_, h⟩
@@ -539,9 +542,10 @@ theorem orphans_after (fs : FS) (o : Op) :
     (∃ q j c, (apply o fs).2.orphans = (q, j, c) :: fs.orphans ∧ fs.get q = some (.file j c)) := by
   cases o with
   | stat p => rw [observer_noop _ _ (Or.inl ⟨p, rfl⟩)]; exact Or.inr (Or.inl rfl)
+  | lstat p g => rw [lstat_noop]; exact Or.inr (Or.inl rfl)
   | openr p => rw [observer_noop _ _ (Or.inr (Or.inl ⟨p, rfl⟩))]; exact Or.inr (Or.inl rfl)
   | read p j => rw [observer_noop _ _ (Or.inr (Or.inr (Or.inl ⟨p, j, rfl⟩)))]; exact Or.inr (Or.inl rfl)
-  | opendir p => rw [observer_noop _ _ (Or.inr (Or.inr (Or.inr (Or.inl ⟨p, rfl⟩))))]; exact Or.inr (Or.inl rfl)
+  | opendir p g => rw [observer_noop _ _ (Or.inr (Or.inr (Or.inr (Or.inl ⟨p, g, rfl⟩))))]; exact Or.inr (Or.inl rfl)
   | readdir p j => rw [observer_noop _ _ (Or.inr (Or.inr (Or.inr (Or.inr ⟨p, j, rfl⟩))))]; exact Or.inr (Or.inl rfl)
   | mkdir p =>
     rcases mkdir_spec p fs with ⟨e, _⟩ | ⟨_, _, _, _, ho, _⟩
@@ -553,12 +557,12 @@ theorem orphans_after (fs : FS) (o : Op) :
     · exact Or.inr (Or.inl ho)
     · exact Or.inr (Or.inl ho)
   | write p j d => exact Or.inl ⟨j, d, (write_spec p j d fs).2.2.1, p, rfl⟩
-  | unlink p =>
-    rcases unlink_spec p fs with ⟨e, _⟩ | ⟨i0, c0, hp, _, _, ho, _⟩
+  | unlink p g =>
+    rcases unlink_spec p _ fs with ⟨e, _⟩ | ⟨i0, c0, hp, _, _, _, ho, _⟩
     · rw [e]; exact Or.inr (Or.inl rfl)
     · exact Or.inr (Or.inr ⟨p, i0, c0, ho, hp⟩)
-  | rmdir p =>
-    rcases rmdir_spec p fs with ⟨e, _⟩ | ⟨_, _, _, _, _, _, ho, _⟩
+  | rmdir p g =>
+    rcases rmdir_spec p _ fs with ⟨e, _⟩ | ⟨_, _, _, _, _, _, ho, _⟩
     · rw [e]; exact Or.inr (Or.inl rfl)
     · exact Or.inr (Or.inl ho)
   | rename p q' =>
@@ -597,10 +601,10 @@ theorem readK_stable {π : Par} {lvl : Level} {me : Nat} {p : Path} {i : Nat} {D
   rcases h with hp | ⟨hnl, hor, hlt, hsl⟩
   · -- still linked at `p`
     have keep : ∀ fs' : FS, fs'.get p = fs.get p → ReadK p i D fs' := fun fs' e => Or.inl (by rw [e]; exact hp)
-    have rm : ∀ (p' : Path), (∀ q, (apply (.unlink p') fs).2.get q = getUpd fs p' none q) →
-        (∀ i0 c0, fs.get p' = some (.file i0 c0) → (apply (.unlink p') fs).2.orphans = (p', i0, c0) :: fs.orphans) →
-        (apply (.unlink p') fs).2.next = fs.next → ReadK p i D (apply (.unlink p') fs).2 := by
-      intro p' hg ho hn
+    have rm : ∀ (p' : Path) (g : Option Nat), (∀ q, (apply (.unlink p' g) fs).2.get q = getUpd fs p' none q) →
+        (∀ i0 c0, fs.get p' = some (.file i0 c0) → (apply (.unlink p' g) fs).2.orphans = (p', i0, c0) :: fs.orphans) →
+        (apply (.unlink p' g) fs).2.next = fs.next → ReadK p i D (apply (.unlink p' g) fs).2 := by
+      intro p' g hg ho hn
       by_cases hpp : p = p'
       · subst hpp
         refine readK_displaced hs hwf hp hn (ho _ _ hp) fun q c hq => ?_
@@ -654,20 +658,20 @@ theorem readK_stable {π : Par} {lvl : Level} {me : Nat} {p : Path} {i : Nat} {D
       exact mv _ _ (by rintro ⟨b, e | e⟩ <;> simp [pTmpOut, pOut, pMeta] at e)
     | renameMeta a o _ _ =>
       exact mv _ _ (by rintro ⟨b, e | e⟩ <;> simp [pTmpMeta, pOut, pMeta] at e)
-    | unlinkE a p' _ _ =>
-      rcases unlink_spec p' fs with ⟨e, _⟩ | ⟨i0, c0, hp', _, hn, ho, hg⟩
+    | unlinkE a p' g _ _ =>
+      rcases unlink_spec p' _ fs with ⟨e, _⟩ | ⟨i0, c0, hp', _, _, hn, ho, hg⟩
       · rw [e]; exact Or.inl hp
-      · exact rm p' hg (fun i1 c1 h1 => by rw [hp'] at h1; cases h1; exact ho) hn
-    | unlinkC p' _ _ =>
-      rcases unlink_spec p' fs with ⟨e, _⟩ | ⟨i0, c0, hp', _, hn, ho, hg⟩
+      · exact rm p' g hg (fun i1 c1 h1 => by rw [hp'] at h1; cases h1; exact ho) hn
+    | unlinkC p' g _ _ =>
+      rcases unlink_spec p' _ fs with ⟨e, _⟩ | ⟨i0, c0, hp', _, _, hn, ho, hg⟩
       · rw [e]; exact Or.inl hp
-      · exact rm p' hg (fun i1 c1 h1 => by rw [hp'] at h1; cases h1; exact ho) hn
-    | rmdirE a p' _ _ =>
-      rcases rmdir_spec p' fs with ⟨e, _⟩ | ⟨_, hp', _, _, _, _, _, hg⟩
+      · exact rm p' g hg (fun i1 c1 h1 => by rw [hp'] at h1; cases h1; exact ho) hn
+    | rmdirE a p' g _ _ =>
+      rcases rmdir_spec p' _ fs with ⟨e, _⟩ | ⟨_, hp', _, _, _, _, _, hg⟩
       · rw [e]; exact Or.inl hp
       · exact keep _ (by rw [hg]; exact getUpd_ne h0 (by rintro rfl; rw [hp] at hp'; cases hp'))
-    | rmdirC p' _ _ =>
-      rcases rmdir_spec p' fs with ⟨e, _⟩ | ⟨_, hp', _, _, _, _, _, hg⟩
+    | rmdirC p' g _ _ =>
+      rcases rmdir_spec p' _ fs with ⟨e, _⟩ | ⟨_, hp', _, _, _, _, _, hg⟩
       · rw [e]; exact Or.inl hp
       · exact keep _ (by rw [hg]; exact getUpd_ne h0 (by rintro rfl; rw [hp] at hp'; cases hp'))
   · -- already an orphan
